@@ -231,10 +231,134 @@ fn cfg_bounded(tier: &str) {
         samples.join(","), viol.join(","));
 }
 
+// ---------------------------------------------------------------------------------------------
+// timebox: value and degree propagation stopped after any number of passes (C20, BOUNDED stand-in).
+// The pass budget of program_structure::verif_hooks (feature `verif`) stands in for the wall-clock time box.
+// Each sample carries its ground truth: which `<--` right-hand sides really are at most quadratic in the signals, and
+// which branch conditions really are constant.  A claim outside the ground truth at ANY cut point is a violation.
+struct TbSample { name: &'static str, src: &'static str, quadratic_ok: &'static [&'static str], const_conds: &'static [(&'static str, bool)] }
+
+const TB_SAMPLES: &[TbSample] = &[
+    TbSample { name: "accumulate-product", src: "template T(n) {\n signal input in; signal output out;\n var acc = 1;\n for (var i = 0; i < n; i++) { acc = acc * in; }\n out <-- acc;\n}\n",
+               quadratic_ok: &[], const_conds: &[] },
+    TbSample { name: "accumulate-product-use-before-update", src: "template T(n) {\n signal input in; signal output out; signal output mid[4];\n var acc = 1;\n for (var i = 0; i < n; i++) { mid[i] <-- acc; acc = acc * in; }\n out <-- acc * acc;\n}\n",
+               quadratic_ok: &[], const_conds: &[] },
+    TbSample { name: "straight-line-quadratic", src: "template T() {\n signal input in; signal output out;\n var a = in; var b = a * in;\n out <-- b;\n}\n",
+               quadratic_ok: &["out"], const_conds: &[] },
+    TbSample { name: "linear-accumulator-squared", src: "template T(n) {\n signal input in; signal output out;\n var t = 0;\n for (var i = 0; i < n; i++) { t = t + in; }\n out <-- t * t;\n}\n",
+               quadratic_ok: &["out"], const_conds: &[] },
+    TbSample { name: "nested-squaring", src: "template T(n) {\n signal input in; signal output out;\n var p = in;\n for (var i = 0; i < n; i++) { for (var j = 0; j < n; j++) { p = p * p; } }\n out <-- p;\n}\n",
+               quadratic_ok: &[], const_conds: &[] },
+    TbSample { name: "branch-raises-degree", src: "template T(n) {\n signal input in; signal output out;\n var q = in;\n if (n == 1) { q = q * in * in; }\n out <-- q;\n}\n",
+               quadratic_ok: &[], const_conds: &[] },
+    TbSample { name: "counter-compared", src: "template T(n) {\n signal input in; signal output out;\n var c = 0;\n for (var i = 0; i < n; i++) { c = c + 1; }\n var r = 0;\n if (c == 0) { r = 1; }\n out <== in * r;\n}\n",
+               quadratic_ok: &[], const_conds: &[] },
+    TbSample { name: "same-constant-on-both-paths", src: "template T(n) {\n signal input in; signal output out;\n var c = 1;\n if (n == 0) { c = 1; }\n var r = 0;\n if (c == 1) { r = 1; }\n out <== in * r;\n}\n",
+               quadratic_ok: &[], const_conds: &[("c == 1", true)] },
+    TbSample { name: "constant-overwritten-in-loop", src: "template T(n) {\n signal input in; signal output out;\n var c = 5;\n for (var i = 0; i < n; i++) { c = c * 2; }\n var r = 0;\n if (c == 5) { r = 1; }\n out <== in * r;\n}\n",
+               quadratic_ok: &[], const_conds: &[] },
+];
+
+fn timebox_bounded(tier: &str) {
+    use program_structure::ir::degree_meta::DegreeMeta;
+    use program_structure::ir::value_meta::{ValueMeta, ValueReduction};
+    use program_structure::ir::{AssignOp, Statement};
+    let max_budget: isize = if tier == "thorough" { 60 } else { 24 };
+    let mut evals = 0u64; let mut nontrivial = 0u64;
+    let mut viol: Vec<String> = vec![]; let mut seen_ob: std::collections::BTreeSet<String> = Default::default();
+    let mut samples: Vec<String> = vec![];
+    let mut claims_seen = 0u64;
+    for smp in TB_SAMPLES {
+        let mut budgets: Vec<isize> = (1..=max_budget).collect();
+        budgets.push(-1);
+        for b in budgets {
+            evals += 1; nontrivial += 1;
+            let r = catch_unwind(AssertUnwindSafe(|| {
+                let def = parser::parse_definition(smp.src).ok_or("parse")?;
+                let mut reports = ReportCollection::new();
+                let cfg = def.into_cfg(&Curve::default(), &mut reports).map_err(|_| "lift")?;
+                program_structure::verif_hooks::set_pass_budget(b);
+                let ssa = cfg.into_ssa().map_err(|_| "ssa");
+                program_structure::verif_hooks::set_pass_budget(-1);
+                ssa
+            }));
+            program_structure::verif_hooks::set_pass_budget(-1);
+            let mut bad: Option<(String, String)> = None;
+            match r {
+                Err(_) => bad = Some(("safety".into(), "the tool panicked".into())),
+                Ok(Err(e)) => bad = Some(("completes".into(), format!("the definition did not reach SSA form ({})", e))),
+                Ok(Ok(cfg)) => {
+                    for bb in cfg.iter() {
+                        for st in bb.iter() {
+                            match st {
+                                Statement::Substitution { var, op: AssignOp::AssignSignal, rhe, .. } => {
+                                    if let Some(range) = rhe.degree() {
+                                        if range.is_quadratic() {
+                                            claims_seen += 1;
+                                            let name = format!("{}", var);
+                                            let base = name.split('.').next().unwrap_or(&name).to_string();
+                                            if !smp.quadratic_ok.iter().any(|q| *q == base) {
+                                                bad = Some(("degree".into(), format!("`{} <-- {}` is annotated as at most quadratic ({:?}), but the right-hand side is not a polynomial of degree <= 2 in the signals", name, rhe, range)));
+                                            }
+                                        }
+                                    }
+                                }
+                                Statement::IfThenElse { cond, .. } => {
+                                    if let Some(ValueReduction::Boolean { value }) = cond.value() {
+                                        claims_seen += 1;
+                                        let text = format!("{}", cond);
+                                        let ok = smp.const_conds.iter().any(|(c, v)| text.replace(|ch: char| ch == '.' || ch.is_ascii_digit() && false, "").contains(&c.replace(' ', "")) || (strip_versions(&text) == c.replace(' ', "") && v == value));
+                                        let ok = ok && smp.const_conds.iter().any(|(c, v)| strip_versions(&text) == c.replace(' ', "") && v == value);
+                                        if !ok {
+                                            bad = Some(("value".into(), format!("the condition `{}` is annotated as always {}, but it is not constant", text, value)));
+                                        }
+                                    }
+                                }
+                                _ => {}
+                            }
+                        }
+                    }
+                }
+            }
+            if samples.len() < 6 && (b == 3 || b == -1) && samples.len() < 6 { samples.push(jstr(&format!("{} @ budget {}", smp.name, b))); }
+            if let Some((cl, what)) = bad {
+                let ob = format!("timebox|Cfg::propagate|bounded|{}", cl);
+                if seen_ob.insert(ob.clone()) {
+                    viol.push(format!("{{\"unit\":\"timebox\",\"fn\":\"Cfg::propagate_values/propagate_degrees\",\"obligation\":{},\"input\":{},\"what\":{},\"replay\":\"replay_parser bounded-timebox\"}}",
+                        jstr(&ob), jstr(&format!("{} stopped after {} pass(es)", smp.name, b)), jstr(&format!("sample `{}` with propagation stopped after {} pass(es): {} — source:\n{}", smp.name, b, what, smp.src))));
+                }
+            }
+        }
+    }
+    println!("{{\"unit\":\"timebox\",\"evaluations\":{},\"distinct_nontrivial\":{},\"exhaustive\":false,\"rule\":{},\"bound\":{},\"samples\":[{}],\"violations\":[{}]}}",
+        evals, nontrivial,
+        jstr("the real parse_definition + into_cfg + into_ssa with value and degree propagation stopped after b passes (pass budget hook = the time box expiring there), for every b up to the bound and for the fixpoint: the run completes, and every `at most quadratic` annotation on a `<--` right-hand side and every `always true/false` annotation on a branch condition is within the sample's hand-written ground truth"),
+        jstr(&format!("{} hand-labelled templates (loop accumulators whose degree grows, uses before updates, nested loops, branches, counters) x pass budgets 1..{} and unlimited; {} claims observed", TB_SAMPLES.len(), max_budget, claims_seen)),
+        samples.join(","), viol.join(","));
+}
+
+/// `c.3 == 1` -> `c==1` (SSA versions and blanks removed)
+fn strip_versions(s: &str) -> String {
+    let mut out = String::new();
+    let cs: Vec<char> = s.chars().collect();
+    let mut i = 0;
+    while i < cs.len() {
+        if cs[i] == '.' && i + 1 < cs.len() && cs[i + 1].is_ascii_digit() && i > 0 && (cs[i - 1].is_alphanumeric() || cs[i - 1] == '_') {
+            i += 1;
+            while i < cs.len() && cs[i].is_ascii_digit() { i += 1; }
+            continue;
+        }
+        if !cs[i].is_whitespace() && cs[i] != '(' && cs[i] != ')' { out.push(cs[i]); }
+        i += 1;
+    }
+    out
+}
+
 fn main() {
     std::panic::set_hook(Box::new(|_| {}));
     let args: Vec<String> = std::env::args().collect();
     match args.get(1).map(|s| s.as_str()) {
+        Some("bounded-timebox") => { timebox_bounded(args.get(2).map(|s| s.as_str()).unwrap_or("quick")); }
         Some("bounded") => {
             let tier = args.get(2).map(|s| s.as_str()).unwrap_or("quick");
             let seed: u64 = args.get(3).and_then(|s| s.parse().ok()).unwrap_or(0);
